@@ -415,7 +415,14 @@ macro_rules! path_attributes {
                     }
                     PathAttribute::Invalid(flags, tc, val) => {
                         debug!("composing invalid path attribute {tc}");
-                        target.append_slice(&[flags.0 | Flags::PARTIAL, *tc])?;
+                        // The Extended Length flag has to announce the
+                        // two-octet length written for long values.
+                        let flags = if val.len() > 255 {
+                            flags.0 | Flags::PARTIAL | Flags::EXTENDED_LEN
+                        } else {
+                            (flags.0 | Flags::PARTIAL) & !Flags::EXTENDED_LEN
+                        };
+                        target.append_slice(&[flags, *tc])?;
                         if val.len() > 255 {
                             target.append_slice(&u16::try_from(val.len()).unwrap_or(u16::MAX).to_be_bytes())?;
                         } else {
